@@ -74,6 +74,13 @@ def _key(ex, st, name, i):
     return KeyStr().make(ex, st, name)
 
 
+def _tree_with_key_tokens(ex, st):
+    """an opaque tree whose leaves are tokens carrying key views"""
+    from pyvc.values import Opaque
+    ex.token_maker = lambda ex_, s_, name, i: Inst("Token", value=KeyStr(), type=Str()).make(ex_, s_, name)
+    return Opaque("inst:Tree")
+
+
 def is_rc(k):
     t = spec_key_type(k)
     return t == ConditionNodeType.REQUIREMENT_CONSTRAINT or t == ConditionNodeType.REPEATABILITY_CONSTRAINT
@@ -91,8 +98,21 @@ def is_fc(k):
 class ExtractFromList:
     """list input (as used by ConditionNodeBuilder): every key lands in exactly the list of its number range, in input
     order; a package key (unresolved) aborts with NotImplementedError, an out-of-range key with ValueError"""
-    params = dict(tree_or_list=SeqOf(_key), sanitize=Const(False))
+    cases = [dict(tree_or_list=SeqOf(_key), sanitize=Const(False)),
+             dict(tree_or_list=Raw(lambda ex, st, n: _tree_with_key_tokens(ex, st)), sanitize=Const(False))]
     raises = {"ValueError": "raises_some_key_out_of_range", "NotImplementedError": "raises_some_package_key"}
+    case_posts = {0: ["post_partition_by_range"], 1: ["post_tree_tokens_by_type_and_range"]}
+    case_raises = {1: []}
+
+    def post_tree_tokens_by_type_and_range(tree_or_list, sanitize, result, ghost_tree_tokens):
+        """tree input: CONDITION_KEY tokens are partitioned by number range, PACKAGE_KEY / TIME_CONDITION_KEY tokens go
+        to their own lists, each in document order (A-LARK-TREE: scan_values)"""
+        toks = ghost_tree_tokens
+        return result.requirement_constraint_keys == [t.value for t in toks if t.type == "CONDITION_KEY" and is_rc(t.value)] \
+            and result.hint_keys == [t.value for t in toks if t.type == "CONDITION_KEY" and is_hint(t.value)] \
+            and result.format_constraint_keys == [t.value for t in toks if t.type == "CONDITION_KEY" and is_fc(t.value)] \
+            and result.package_keys == [t.value for t in toks if t.type == "PACKAGE_KEY"] \
+            and result.time_condition_keys == [t.value for t in toks if t.type == "TIME_CONDITION_KEY"]
 
     def hook(ex, st, bound):
         """modular view (tree or list input): a CategorizedKeyExtract, or ValueError / NotImplementedError"""
